@@ -59,11 +59,19 @@ def _plan_nothreads(tier: str, seed: int):
         shards.append({"name": f"rnd{i}", "engine": "jit",
                        "args": {"mode": "random", "n": per},
                        "timeout": 3000})
+    # the same random workload with numba's documented debugging switch
+    # NUMBA_DISABLE_JIT=1 (numpy scalar arithmetic instead of machine ints)
+    for i in range(2 if tier == "quick" else 6):
+        shards.append({"name": f"py{i}", "engine": "py",
+                       "args": {"mode": "random",
+                                "n": 140 if tier == "quick" else 1500},
+                       "timeout": 3000})
     return shards
 
 
 def REQUIRED_fn(tier):  # noqa: N802
     r = dict(_REQUIRED)
+    r["every_even_team_count_plans"] = 100
     k = len(SETTINGS_QUICK if tier == "quick" else SETTINGS_THOROUGH)
     r["exhaustive_plans"] = 2_985_984 * k
     r["feasible_plans_confirmed"] = 1
@@ -523,7 +531,7 @@ def random_shard(ctx, count):
     for it in range(count):
         n = int(rng.choice([2, 4, 4, 6, 6, 8, 10, 12]))
         rounds = int(rng.choice([1, 2, 2, 3]))
-        if it % 9 == 4:
+        if it % 9 == 4 or (ctx.engine == "py" and it % 3 == 1):
             # many days / many teams: day indices and team ids cross the
             # int8 / uint8 limits (127/128, 255/256) - `rounds` is a public
             # parameter of the instance
@@ -531,6 +539,11 @@ def random_shard(ctx, count):
                          (4, 100), (6, 26), (6, 52), (8, 19), (40, 4),
                          (126, 1), (128, 1), (64, 3)][int(rng.integers(13))]
             ctx.count("many_days_or_teams_plans")
+        elif it % 7 == 5:
+            # EVERY even team count from 14 to 62 in turn, one or two rounds
+            n = 14 + 2 * ((it // 7 + ctx.shard_idx * 7) % 25)
+            rounds = 1 + (it // 7) % 2
+            ctx.count("every_even_team_count_plans")
         cfg = random_cfg(rng, n, rounds)
         D = (n - 1) * rounds
         kind = it % 8
